@@ -871,6 +871,7 @@ fn c08(tier: Tier, seed: u64) -> i32 {
 		eval_seq_case(&e, &case, want)
 	});
 	conc_campaign(&mut ctx, "C08", tier);
+	types_half(&mut ctx, "C08", tier, "types-member-list-cannot-change-after-sorting");
 	ctx.require_label("world.nested", 1000);
 	ctx.finish()
 }
@@ -983,6 +984,7 @@ fn c10(tier: Tier, seed: u64) -> i32 {
 		eval_seq_case(&e, &case, want)
 	});
 	conc_campaign(&mut ctx, "C10", tier);
+	types_half(&mut ctx, "C10", tier, "types-no-route-around-the-poison-flag");
 	ctx.require_label("poisoned_acquire", 500);
 	ctx.require_label("clear_after_poison", 100);
 	ctx.finish()
@@ -1475,6 +1477,15 @@ pub fn types_pairs_for(prop: &str, tier: Tier) -> Vec<crate::tyeng::Pair> {
 				p
 			})
 			.collect(),
+		// C08: the sorted lock list is computed once: the member list must not change afterwards
+		"C08" => crate::tyeng::families_mutation_after_check()
+			.into_iter()
+			.map(|mut p| {
+				p.prop = "C08".into();
+				p.family = "C08-member-list-fixed-after-sorting".into();
+				p
+			})
+			.collect(),
 		// C03: nothing that carries a hold can be duplicated (a `Clone` of a hold
 		// acquires without a key while the thread holds locks)
 		"C03" => crate::tyeng::families_c14(&crate::tyeng::Subj::all())
@@ -1538,6 +1549,8 @@ fn types_report(tc: &crate::tyeng::Toolchain, p: &crate::tyeng::Pair, want: bool
 		"C03" => "C03",
 		"C05" => "C05",
 		"C13" => "C13",
+		"C08" => "C08",
+		"C10" => "C10",
 		_ => "C07",
 	};
 	match &out {
@@ -1625,7 +1638,10 @@ pub fn types_campaign(ctx: &mut CheckCtx, prop: &str, tier: Tier, quick_n: u64) 
 pub fn types_half(ctx: &mut CheckCtx, prop: &str, tier: Tier, campaign: &str) {
 	match crate::tyeng::Toolchain::locate() {
 		Ok(tc) => {
-			let pairs = types_pairs_for(prop, tier);
+			let mut pairs = types_pairs_for(prop, tier);
+			if matches!(prop, "C08" | "C10") {
+				surface_pairs(ctx, prop, &mut pairs);
+			}
 			let items: Vec<usize> = (0..pairs.len()).collect();
 			ctx.enumerate(campaign, items, |i, want| types_report(&tc, &pairs[*i], want));
 			tc.cleanup();
@@ -1640,8 +1656,13 @@ pub fn surface_pairs(ctx: &mut CheckCtx, prop: &str, pairs: &mut Vec<crate::tyen
 		Ok(doc) => {
 			let (ms, st) = crate::surface::methods(&doc);
 			let n0 = pairs.len();
-			if prop != "C14" && prop != "C02" && prop != "C01" {
+			if !matches!(prop, "C14" | "C02" | "C01" | "C08" | "C10") {
 				pairs.extend(crate::surface::families_surface(prop, &ms));
+			}
+			if prop == "C10" {
+				let (bp, seen) = crate::surface::families_surface_poisonable_bypass(prop, &doc);
+				ctx.extra.insert("api_surface_poisonable".into(), json!({"functions_seen": seen, "pairs_generated": bp.len(), "names": bp.iter().map(|p| p.name.clone()).collect::<Vec<_>>()}));
+				pairs.extend(bp);
 			}
 			if prop == "C07" {
 				let (cp, seen) = crate::surface::families_surface_constructors(prop, &doc);
@@ -1653,7 +1674,7 @@ pub fn surface_pairs(ctx: &mut CheckCtx, prop: &str, pairs: &mut Vec<crate::tyen
 				ctx.extra.insert("api_surface_keyless_data".into(), json!({"functions_seen": seen, "pairs_generated": kp.len(), "names": kp.iter().map(|p| p.name.clone()).collect::<Vec<_>>()}));
 				pairs.extend(kp);
 			}
-			if matches!(prop, "C14" | "C02" | "C01") {
+			if matches!(prop, "C14" | "C02" | "C01" | "C08") {
 				let (shape_pairs, seen) = crate::surface::families_surface_shapes(prop, &doc);
 				ctx.extra.insert("api_surface_shapes".into(), json!({"functions_seen": seen, "pairs_generated": shape_pairs.len(), "names": shape_pairs.iter().map(|p| p.name.clone()).collect::<Vec<_>>()}));
 				pairs.extend(shape_pairs);
@@ -1662,7 +1683,7 @@ pub fn surface_pairs(ctx: &mut CheckCtx, prop: &str, pairs: &mut Vec<crate::tyen
 				"api_surface".into(),
 				json!({"source": "cargo +nightly rustdoc --output-format json on /repo's working tree", "hold_types": crate::surface::HOLD_TYPES, "methods_seen": st.methods_seen, "by_reference_and_reference_in_result": ms.len(), "skipped_by_value_or_extra_args": st.skipped_by_value_or_extra_args, "skipped_no_reference_in_result": st.skipped_no_reference_in_result, "pairs_generated": pairs.len() - n0, "methods": ms.iter().map(|m| format!("{}::{}", m.owner, m.name)).collect::<Vec<_>>()}),
 			);
-			if ms.len() < 8 && !matches!(prop, "C14" | "C02" | "C01") {
+			if ms.len() < 8 && !matches!(prop, "C14" | "C02" | "C01" | "C08" | "C10") {
 				ctx.health_errors.push(format!("API surface: only {} by-reference methods with a reference in their result were found on the hold types (Deref / AsRef alone are more)", ms.len()));
 			}
 		}
